@@ -133,6 +133,11 @@ def dep_named_fields(d):
     return [f for f in all_fields(d) if f[3] == "1" and f[1] != "5f"]
 
 
+def empty_alias(dump):
+    """`f#00000001 => <=> ;` is accepted with an empty alias type (Name "", no arguments)"""
+    return "(a (n (N - -) 0))" in dump
+
+
 _DEP = re.compile(r"\(f 5f[0-9a-f]+ 0 1 ")
 
 
